@@ -324,16 +324,20 @@ func (s *EtcdStore) FetchTopicConfig(ctx context.Context, topic string) (*metada
 	}
 	s.recordEtcdResult(nil)
 	if len(resp.Kvs) > 0 {
-		return DecodeTopicConfig(resp.Kvs[0].Value)
+		cfg, err := DecodeTopicConfig(resp.Kvs[0].Value)
+		if err != nil {
+			return nil, err
+		}
+		// The partition count belongs to the metadata snapshot; a configuration
+		// record stored before the topic grew must not report the old count.
+		if meta, merr := s.metadata.Metadata(ctx, []string{topic}); merr == nil && len(meta.Topics) == 1 && meta.Topics[0].ErrorCode == 0 {
+			cfg.Partitions = int32(len(meta.Topics[0].Partitions))
+		}
+		return cfg, nil
 	}
-	meta, err := s.metadata.Metadata(ctx, []string{topic})
-	if err != nil {
-		return nil, err
-	}
-	if len(meta.Topics) == 0 || meta.Topics[0].ErrorCode != 0 {
-		return nil, ErrUnknownTopic
-	}
-	return defaultTopicConfigFromTopic(&meta.Topics[0], int16(len(meta.Topics[0].Partitions))), nil
+	// Nothing stored in etcd: answer from the local snapshot, which holds the
+	// configuration a topic was created with (and the same defaults otherwise).
+	return s.metadata.FetchTopicConfig(ctx, topic)
 }
 
 // UpdateTopicConfig persists topic configuration into etcd.
